@@ -1,1 +1,91 @@
 // Kani contract harnesses for /repo/arrow-data/src/equal/utils.rs (child module: sees private items via super::)
+//
+// C02: equality helpers depend only on the addressed logical content (bits / bytes), never on the
+// physical position (bit offsets, surrounding bytes).
+use super::*;
+
+/// bit k of a little-endian bit-packed byte sequence (Arrow validity / boolean layout)
+fn bit(d: &[u8], k: usize) -> bool {
+    (d[k / 8] >> (k % 8)) & 1 == 1
+}
+
+// Contract (C02): for two 12-byte buffers with arbitrary contents and arbitrary in-range bit
+// offsets ls, rs and bit length len (len <= 70, so the 64-bit chunk path AND the remainder path are
+// both exercised; ls, rs < 24 cover every sub-byte alignment combination):
+//   equal_bits(l, r, ls, rs, len)  <=>  for all i < len: bit(l, ls+i) = bit(r, rs+i).
+// Both directions via the windows as wide integers (independent of the chunk iterator); "=>" also
+// per bit at a nondeterministic i. Bits outside the windows are irrelevant.
+const NB: usize = 12;
+/// the window [start, start+len) of the bitmap as an integer (bit i of the result = bit start+i),
+/// computed with wide-integer arithmetic on the little-endian value of the 12 bytes
+fn window(d: &[u8; NB], start: usize, len: usize) -> u128 {
+    let mut w = [0u8; 16];
+    w[..NB].copy_from_slice(d);
+    let all = u128::from_le_bytes(w);
+    let mask = if len == 0 { 0 } else { (1u128 << len) - 1 }; // len <= 70 < 128
+    (all >> start) & mask
+}
+// @unit name=equal_bits_iff_all_bits_equal props=C02 kind=bounded bound=12-byte_buffers_offsets<24_len<=70 fns=equal_bits tier=quick mem=4 timeout=600
+#[kani::proof]
+#[kani::unwind(14)]
+fn equal_bits_iff_all_bits_equal() {
+    let a: [u8; NB] = kani::any();
+    let b: [u8; NB] = kani::any();
+    let (ls, rs, len): (usize, usize, usize) = (kani::any(), kani::any(), kani::any());
+    kani::assume(ls < 24 && rs < 24 && len <= 70 && ls + len <= 8 * NB && rs + len <= 8 * NB);
+    let got = equal_bits(&a, &b, ls, rs, len);
+    // <=> the two windows are the same bit string
+    assert!(got == (window(&a, ls, len) == window(&b, rs, len)));
+    kani::cover!(got && len == 70 && ls % 8 == 3 && rs % 8 == 5);
+    kani::cover!(!got && len == 70);
+    kani::cover!(got && len == 64 && ls != rs);
+    kani::cover!(!got && len == 1);
+    kani::cover!(got && len == 0);
+    kani::cover!(got && len > 0 && a != b); // equal windows inside different buffers
+    // and, spelled out per bit, at a nondeterministic position
+    if got {
+        let i: usize = kani::any();
+        if i < len {
+            assert!(bit(&a, ls + i) == bit(&b, rs + i));
+        }
+    }
+}
+
+// Contract (C02): `equal_len(l, r, ls, rs, len)` (byte units)  <=>  l[ls..ls+len] == r[rs..rs+len]
+// elementwise, for arbitrary contents and in-range starts/length; bytes outside are irrelevant.
+// May-reject part: with ARBITRARY usize arguments it either panics or both windows are in range.
+// @unit name=equal_len_iff_bytes_equal props=C02 kind=bounded bound=8-byte_slices fns=equal_len tier=quick mem=2 timeout=300
+#[kani::proof]
+#[kani::unwind(10)]
+fn equal_len_iff_bytes_equal() {
+    let a: [u8; 8] = kani::any();
+    let b: [u8; 8] = kani::any();
+    let (ls, rs, len): (usize, usize, usize) = (kani::any(), kani::any(), kani::any());
+    kani::assume(ls <= 8 && rs <= 8 && len <= 8 - ls && len <= 8 - rs);
+    let got = equal_len(&a, &b, ls, rs, len);
+    let mut all = true;
+    let mut i = 0;
+    while i < 8 {
+        if i < len && a[ls + i] != b[rs + i] {
+            all = false;
+        }
+        i += 1;
+    }
+    assert!(got == all);
+    kani::cover!(got && len == 8);
+    kani::cover!(got && len == 3 && ls != rs && a != b);
+    kani::cover!(!got && len == 1);
+    kani::cover!(got && len == 0 && ls == 8);
+}
+// @unit name=equal_len_rejects_out_of_range props=C02,C01 kind=bounded bound=8-byte_slices_all_usize_arguments fns=equal_len mayreject=1 tier=quick mem=2 timeout=300
+#[kani::proof]
+#[kani::unwind(10)]
+fn equal_len_rejects_out_of_range() {
+    let a: [u8; 8] = kani::any();
+    let b: [u8; 8] = kani::any();
+    let (ls, rs, len): (usize, usize, usize) = (kani::any(), kani::any(), kani::any());
+    kani::assume(ls.checked_add(len).is_some() && rs.checked_add(len).is_some()); // callers pass in-range sums
+    let _ = equal_len(&a, &b, ls, rs, len);
+    assert!(ls + len <= 8 && rs + len <= 8);
+    kani::cover!(ls + len == 8 && len > 0);
+}
